@@ -115,6 +115,10 @@ func (p *C12) Gen(seed uint64, i int, tier string) *scen.Scenario {
 			sc.Faults = append(sc.Faults, scen.Fault{W: 3, Attempt: k, Kind: scen.Pick(r, []string{"err", "err", "partial"}), N: 5})
 		}
 		pre = []scen.Op{{Kind: "errwriter", W: 3, WK: "plain"}, {Kind: "add_errwriter", W: 1, WK: "file"}}
+	} else if scen.Mix(seed, 1014, uint64(i))%3 == 0 {
+		// destinations that can be synced, two of them reporting an I/O error when they are: whatever a library does
+		// before it terminates (it may flush, nothing says it must), the record is written and the process ends as stated
+		pre = []scen.Op{{Kind: "errwriter", W: 1, WK: "filesync"}, {Kind: "add_errwriter", W: 5, WK: "filesyncfail"}, {Kind: "add_errwriter", W: 6, WK: "filesyncfail"}}
 	} else {
 		pre = []scen.Op{{Kind: "errwriter", W: 1, WK: "file"}}
 	}
